@@ -445,6 +445,7 @@ def build():
     C.trace_helpers |= {"n_start_eject", "n_end_eject", "end_eject_reports"}
     C.fn("OutgoingBallsHandler._eject_ball", params=dict(eject_request=REQ, eject_try=Int), result=Bool,
          loops={0: LoopSpec(invariant=[], modifies=[])},
+         loops_by_text={"old_balls - new_balls": LoopSpec(invariant=[], modifies=[])},
          ensures=[("J1: one attempt takes the counting lock once (start_eject) and releases it once (end_eject) on "
                    "every exit, so a failed or timed-out eject cannot leave the device stuck on its own lock",
                    "n_start_eject() == 1 and n_end_eject() == 1"),
